@@ -35,6 +35,17 @@ add("C13", "exploration",
     "deterministic simulation: seeded baton scheduler over real threads + fault injection at the frame-read seam, FIFO reference model",
     "DESIGN.md section 5 C13")
 
+add("C09", "exploration",
+    "Seeded search over frame histories (simulated scene -> sensor-fault model -> detection lists) x tracker configurations with the real Tracker; conservation oracle (no crash, nothing dropped/duplicated/invented, every above-threshold detection tracked, no track twice per frame) after every track() call. Sampling of histories; evidence, not proof.",
+    "Detections are synthetic PredictedInstances (>=2 visible keypoints, finite scores); max_tracks=None; FlowShiftTracker not simulated.",
+    "deterministic simulation: seeded scene + sensor-fault injection feeding the real stateful tracker, conservation invariants per step",
+    "DESIGN.md section 5 C09")
+add("C10", "exploration",
+    "Seeded search over scenes drawn from the class the property names (well separated, short absences, newcomers only while all visible, permuted detection order) x tracker configurations; identity oracle (animal<->track relation is an injective function over the whole history).",
+    "Scenario class fixed from the statement (separation >= 10 body sizes, absence <= window-2, scores above threshold, body-diagonal nodes visible); runs where C09 fails are left to C09.",
+    "deterministic simulation: seeded scene histories against the real tracker with a ground-truth identity reference model",
+    "DESIGN.md section 5 C10")
+
 PENDING = ["C02","C03","C04","C09","C10","C11","C12","C14","C18","C19"]
 
 def main():
